@@ -581,7 +581,7 @@ void check_C16(Src &s, Ctx &ctx) {
     dev_known_once();
     const char *tool = getenv("VERIF_TASGRID");
     if (!tool || !*tool) throw std::runtime_error("C16 needs the environment variable VERIF_TASGRID (path of the tasgrid binary: python3 build.py asan tasgrid)");
-    Script sc(s, ctx); sc.tool = tool; sc.dir = cfg().workdir; sc.cap = cfg().tier ? 300 : 150;
+    Script sc(s, ctx); sc.tool = tool; sc.dir = cfg().workdir; sc.cap = cfg().tier ? 200 : 150;
     sc.gridfile = sc.dir + "/c16_grid.tsg"; sc.mirrorfile = sc.dir + "/c16_mirror.tsg";
     unlink(sc.gridfile.c_str()); unlink(sc.mirrorfile.c_str());
     int n = 2 + s.pick(7);
